@@ -152,6 +152,8 @@ func worker(prop string, base uint64, from, count, stride int, limit float64, de
 		sum.Probes.Merge(w.probes)
 		sum.Probes.Add("select_with_several_ready_arms", int64(w.sim.SelectMulti))
 		sum.Probes.Add("clock_jumps", int64(w.sim.ClockJumps))
+		sum.Faults.Add("goroutine_descheduled_for_simulated_time", int64(w.sim.GoroutineStalls))
+		sum.Faults.Add("goroutine_descheduled_in_front_of_unbuffered_channel_operation", int64(w.sim.ArrivalStalls))
 		sum.Probes.Add("context_switches", int64(w.sim.CtxSwitches))
 		sum.Maxima.Merge(w.maxima)
 		sum.Maxima.Obs("max_steps_per_run", float64(o.res.Steps))
